@@ -1,6 +1,7 @@
 #!/usr/bin/env python3
 # csv_variants.py [name-prefix ...]  - rehearsal for harness/translate_csv.py + the obligations gen_csv_<name>_eq (C11 / C10 / C18).
-# Every variant is a small textual edit of rbql-py/rbql/csv_utils.py (optionally on top of a patch of seeded/harmless/).  It is
+# Every variant is a small textual edit of rbql-py/rbql/csv_utils.py - or, names js-*, of rbql-js/csv_utils.js, compared through node -
+# (optionally on top of a patch of seeded/harmless/).  It is
 #   EQ    behaviour-preserving: wanted verdict CLOSED (translated, every obligation proved).  A verdict ALARM (refused, or an
 #         obligation not proved) is what the brief prescribes for an unproved obligation without a failing input - it is counted
 #         and listed, not an error of this script;
@@ -21,6 +22,8 @@ HERE = os.path.dirname(os.path.abspath(__file__))
 VERIF = os.path.dirname(HERE)
 BASE = os.environ.get('VERIF_REPO_BASE', '/repo')
 REL = 'rbql-py/rbql/csv_utils.py'
+REL_JS = 'rbql-js/csv_utils.js'
+THEORIES = os.environ.get('VERIF_THEORIES', os.path.join(VERIF, 'coq', 'theories'))
 
 # (name, class, base harmless patch or None, [(old text, new text), ...])
 VARIANTS = [
@@ -77,6 +80,51 @@ VARIANTS = [
     ('D-C10-h1-wrong-tail', 'DIFF', 'C10-h1', [("return [field[:-1] for field in result[:-1]] + result[-1:]", "return [field[:-1] for field in result[:-1]] + result[-2:]")]),
 ]
 
+# JavaScript: (name, class, base harmless patch or None, edits) on rbql-js/csv_utils.js
+VARIANTS_JS = [
+    ('js-control-unchanged', 'EQ', None, []),
+    ('js-includes', 'EQ', None, [("    if (src.indexOf('\"') == -1) // Optimization", "    if (!src.includes('\"')) // Optimization")]),
+    ('js-uidx-negative-test', 'EQ', None, [("    if (uidx == -1)\n", "    if (uidx < 0)\n")]),
+    ('js-concatenation-for-template', 'EQ', None, [("        var escaped = src.replace(/\"/g, '\"\"');\n        return `\"${escaped}\"`;\n    }\n    return src;\n}\n\n\nfunction rfc",
+                                                     "        var escaped = src.replace(/\"/g, '\"\"');\n        return '\"' + escaped + '\"';\n    }\n    return src;\n}\n\n\nfunction rfc")]),
+    ('js-absolute-match-end', 'EQ', None, [("        let match_end = match_obj[0].length;\n        if (cidx + match_end == src.length || src.startsWith(dlm, cidx + match_end)) {", "        let match_end = cidx + match_obj[0].length;\n        if (match_end == src.length || src.startsWith(dlm, match_end)) {"),
+                                            ("            return [cidx + match_end + dlm.length, false];", "            return [match_end + dlm.length, false];")]),
+    ('js-destructured-report', 'EQ', None, [("        var extraction_report = extract_next_field(src, dlm, preserve_quotes_and_whitespaces, allow_external_whitespaces, cidx, result);\n        cidx = extraction_report[0];\n        warning = warning || extraction_report[1];",
+                                             "        const [next_cidx, field_warning] = extract_next_field(src, dlm, preserve_quotes_and_whitespaces, allow_external_whitespaces, cidx, result);\n        cidx = next_cidx;\n        warning = warning || field_warning;")]),
+    ('js-while-for-for', 'EQ', None, [("        for (let i = 0; i < result.length - 1; i++) {\n            result[i] = result[i].slice(0, -1);\n        }", "        let i = 0;\n        while (i < result.length - 1) {\n            result[i] = result[i].slice(0, -1);\n            i++;\n        }")]),
+    ('js-on-top-of-C10-h2', 'EQ', 'C10-h2', []),
+    ('js-on-top-of-C11-h2', 'EQ', 'C11-h2', []),
+    ('js-on-top-of-C18-h2', 'EQ', 'C18-h2', []),
+    ('js-on-top-of-C20-h2', 'EQ', 'C20-h2', []),
+    # ---- behaviour-changing
+    ('js-D-relative-match-end', 'DIFF', None, [("if (cidx + match_end == src.length ||", "if (match_end == src.length ||")]),
+    ('js-D-startswith-relative', 'DIFF', None, [("src.startsWith(dlm, cidx + match_end)) {", "src.startsWith(dlm, match_end)) {")]),
+    ('js-D-delimiter-length-one', 'DIFF', None, [("    return [uidx + dlm.length, warning];", "    return [uidx + 1, warning];")]),
+    ('js-D-replace-first-only', 'DIFF', None, [("result.push(match_obj[1].replace(/\"\"/g, '\"'));", "result.push(match_obj[1].replace(/\"\"/, '\"'));")]),
+    ('js-D-chop-all', 'DIFF', None, [("i < result.length - 1; i++", "i < result.length; i++")]),
+    ('js-D-chop-two', 'DIFF', None, [("result[i].slice(0, -1)", "result[i].slice(0, -2)")]),
+    ('js-D-substring-off', 'DIFF', None, [("    var field = src.substring(cidx, uidx);", "    var field = src.substring(cidx + 1, uidx);")]),
+    ('js-D-sticky-wrong-lastindex', 'DIFF', 'C10-h2', [("    rgx.lastIndex = cidx; //", "    rgx.lastIndex = 0; //")]),
+    ('js-D-inlined-without-continue', 'DIFF', 'C11-h2', [("                cidx = match_end + dlm.length;\n                continue;\n", "                cidx = match_end + dlm.length;\n")]),
+    ('js-D-helper-does-not-escape', 'DIFF', 'C18-h2', [("    const escaped = src.replace(/\"/g, '\"\"');\n    return `\"${escaped}\"`;", "    const escaped = src;\n    return `\"${escaped}\"`;")]),
+    ('js-D-rfc-no-lf', 'DIFF', None, [(" || src.indexOf('\\n') != -1 || src.indexOf('\\r') != -1) {", " || src.indexOf('\\r') != -1) {")]),
+]
+
+NODE_BEHAVIOUR = r"""
+const m = require(process.argv[2]);
+const crypto = require('crypto');
+const h = crypto.createHash('sha1');
+const NL = String.fromCharCode(10), CR = String.fromCharCode(13), TAB = String.fromCharCode(9);
+function prod(alpha, n, f) { const rec = (p, k) => { if (k == 0) { f(p); return; } for (const c of alpha) rec(p + c, k - 1); }; rec('', n); }
+for (let n = 0; n <= 6; n++) prod('", x' + TAB, n, line => {
+  for (const dlm of [',', ' ', ', ', 'xx', '  ']) for (const pol of ['simple', 'quoted', 'quoted_rfc', 'whitespace', 'monocolumn', 'simple ']) for (const pr of [false, true]) {
+    let r; try { r = JSON.stringify(m.smart_split(line, dlm, pol, pr)); } catch (e) { r = 'EXC ' + e.name; }
+    h.update(r + NL);
+  }});
+for (let n = 0; n <= 5; n++) prod('",x' + NL + CR, n, f => { for (const dlm of [',', 'x,']) h.update(JSON.stringify([m.quote_field(f, dlm), m.rfc_quote_field(f, dlm)]) + NL); });
+console.log(h.digest('hex'));
+"""
+
 POLICIES = ['simple', 'quoted', 'quoted_rfc', 'whitespace', 'monocolumn', 'simple ']
 
 
@@ -108,13 +156,21 @@ def behaviour(mod):
     return out
 
 
-def verdict(repo, out):
+def behaviour_js(path, tmp):
+    script = os.path.join(tmp, 'behaviour.js')
+    if not os.path.exists(script):
+        open(script, 'w').write(NODE_BEHAVIOUR)
+    p = subprocess.run(['node', script, path], capture_output=True, text=True, timeout=600)
+    return p.stdout.strip() if p.returncode == 0 else 'FAILED ' + p.stderr[-200:]
+
+
+def verdict(repo, out, lang='py'):
     shutil.rmtree(out, ignore_errors=True)
     env = dict(os.environ, VERIF_REPO=repo, PYTHONDONTWRITEBYTECODE='1')
-    p = subprocess.run([sys.executable, os.path.join(HERE, 'translate_csv.py'), out], env=env, capture_output=True, text=True)
+    p = subprocess.run([sys.executable, os.path.join(HERE, 'translate_csv.py'), out, lang], env=env, capture_output=True, text=True)
     if p.returncode != 0:
         return 'ALARM', 'refused: ' + p.stderr.strip().replace(repo + '/', '')[-200:]
-    q = subprocess.run(['bash', '-c', 'ulimit -s unlimited; timeout 240 coqc -Q %s RBQL -Q . RBQLGen GenCsv.v 2>&1' % os.path.join(VERIF, 'coq', 'theories')], cwd=out, capture_output=True, text=True)
+    q = subprocess.run(['bash', '-c', 'ulimit -s unlimited; timeout 240 coqc -Q %s RBQL -Q . RBQLGen %s.v 2>&1' % (THEORIES, 'GenCsvJs' if lang == 'js' else 'GenCsv')], cwd=out, capture_output=True, text=True)
     if q.returncode != 0:
         import re
         m = re.search(r'\(in proof ([A-Za-z0-9_]+)\)', q.stdout)
@@ -134,13 +190,22 @@ def main():
         bad = 0
         counts = {'EQ': [0, 0], 'DIFF': [0, 0]}
         alarms = []
-        for name, cls, patch, edits in VARIANTS:
+        base_js = open(os.path.join(BASE, REL_JS), encoding='utf-8').read()
+        os.makedirs(os.path.join(orig_dir, 'js'))
+        open(os.path.join(orig_dir, 'js', 'csv_utils.js'), 'w', encoding='utf-8').write(base_js)
+        ref_js = None
+        for name, cls, patch, edits in VARIANTS + VARIANTS_JS:
             if prefixes and not any(name.startswith(p) for p in prefixes):
                 continue
+            js = name.startswith('js-')
             repo = os.path.join(tmp, 'repo_' + name)
             os.makedirs(os.path.join(repo, 'rbql-py', 'rbql'))
-            path = os.path.join(repo, REL)
-            open(path, 'w', encoding='utf-8').write(base_text)
+            os.makedirs(os.path.join(repo, 'rbql-js'))
+            open(os.path.join(repo, REL), 'w', encoding='utf-8').write(base_text)
+            open(os.path.join(repo, REL_JS), 'w', encoding='utf-8').write(base_js)
+            if js:
+                shutil.copy(os.path.join(BASE, 'rbql-js', 'rbql_csv.js'), os.path.join(repo, 'rbql-js', 'rbql_csv.js'))   # (some patches touch it too)
+            path = os.path.join(repo, REL_JS if js else REL)
             if patch:
                 r = subprocess.run(['patch', '-p1', '-s', '-i', os.path.join(VERIF, 'seeded', 'harmless', patch, 'patch.diff')], cwd=repo, capture_output=True, text=True)
                 if r.returncode != 0:
@@ -159,18 +224,29 @@ def main():
                 bad += 1
                 continue
             open(path, 'w', encoding='utf-8').write(text)
-            if ref is None:
-                ref = behaviour(load(os.path.join(orig_dir, 'csv_utils.py'), 'csv_utils_orig'))
-            try:
-                same = behaviour(load(path, 'csv_utils_' + str(abs(hash(name))))) == ref
-            except Exception as e:                               # noqa: BLE001
-                same = False
-                print('  (%s: the edited module failed: %r)' % (name, e))
+            if js:
+                if ref_js is None:
+                    ref_js = behaviour_js(os.path.join(orig_dir, 'js', 'csv_utils.js'), tmp)
+                    if ref_js.startswith('FAILED'):
+                        print('the node comparison script fails on the unchanged file: ' + ref_js)
+                        return 1
+                got_js = behaviour_js(path, tmp)
+                same = got_js == ref_js
+                if got_js.startswith('FAILED'):
+                    print('  (%s: the edited module failed under node: %s)' % (name, got_js[-120:]))
+            else:
+                if ref is None:
+                    ref = behaviour(load(os.path.join(orig_dir, 'csv_utils.py'), 'csv_utils_orig'))
+                try:
+                    same = behaviour(load(path, 'csv_utils_' + str(abs(hash(name))))) == ref
+                except Exception as e:                               # noqa: BLE001
+                    same = False
+                    print('  (%s: the edited module failed: %r)' % (name, e))
             if same != (cls == 'EQ'):
                 print('%-36s MISCLASSIFIED: declared %s but the bounded comparison says %s' % (name, cls, 'equal' if same else 'different'))
                 bad += 1
                 continue
-            v, detail = verdict(repo, os.path.join(tmp, 'out_' + name))
+            v, detail = verdict(repo, os.path.join(tmp, 'out_' + name), 'js' if js else 'py')
             counts[cls][0] += 1
             if v == 'CLOSED':
                 counts[cls][1] += 1
